@@ -27,7 +27,7 @@ ASSUMPTIONS = [
 FRESH = [False, False, 0, 0, 0, True]
 
 MODULES = {
-    "okmod": "var value = 41;\nfn inc() { value = value + 1; return value; }\nprint(\"okmod body\");\n",
+    "okmod": "var value = 41;\nfn inc() { value = value + 1; return value; }\nfn boom() { throw \"boom in okmod\"; }\nprint(\"okmod body\");\n",
     "badmod": "var before = 1;\nthrow \"in module\";\n",
     "synmod": "var = ;\n",
     "usesok": "import \"okmod\";\nvar seen = okmod.value;\n",
@@ -213,6 +213,12 @@ def correspondence(ctx, model_ok=True):
         (["import \"okmod\";\nokmod.value = 99;\n"], ["import \"okmod\";\nprint(okmod.value);\n"]),
         (["var g = 1;\nfn f() { return g; }\nclass C {}\n"], ["try { print(g); } catch e { print(e.context); }\ntry { f(); } catch e { print(e.context); }\nprint(type(print));\n"]),
         (["throw \"x\";\n"], [PROBE]),
+        # after a reset the built-in classes (error classes, the iteration sentinel, the adapters) are there as on a new interpreter
+        (["var junk = 1;\n"], ["print(StopIter); print(Error); print(TypeError);\ntry { nil + 1; } catch e { print(type(e) == TypeError); }\nprint([1, 2].iter().map(|v| v + 1).filter(|v| v > 2).collect());\n#[constructor(new)] class It { fn iter(self) { return self; } fn next(self) { return StopIter.new(); } }\nfor x in It.new() { print(x); }\nprint(\"end\");\n"]),
+        # a failure while code of an imported module is running, then reset: main's old globals must be gone, the module forgotten
+        (["var secret = \"old\";\nfn greet() { return \"hi\"; }\nimport \"okmod\";\nokmod.boom();\n"],
+         ["try { print(secret); } catch e { print(e.context); }\ntry { print(greet()); } catch e { print(e.context); }\ntry { print(okmod.value); } catch e { print(e.context); }\nimport \"okmod\";\nprint(okmod.value);\n"]),
+        (["var secret2 = \"old\";\nimport \"badmod\";\n"], ["try { print(secret2); } catch e { print(e.context); }\nprint(type(print));\n", PROBE]),
         (["var NotC = 1;\n#[derive(NotC)]\nclass Bad {}\n"], [PROBE]),
     ]
     for i in range(n_reset + len(directed)):
